@@ -15,6 +15,7 @@ import (
 	"sort"
 	"strings"
 	"sync"
+	"sync/atomic"
 	"time"
 
 	"github.com/logrange/logrange/api"
@@ -46,6 +47,7 @@ type Step struct {
 	//   badpos:<text>   the current ReqId with a Pos that does not parse (the request must fail; a cached cursor of the
 	//                   query is dropped by it: the model sees the page that follows as one after an eviction)
 	//   badpos0:<text>  the same without ReqId
+	//   badarg:<what>   the current ReqId and Pos with limit -1 / WaitTimeout -1 / WaitTimeout 61: refused, nothing changes
 	//   otherquery      the current ReqId and Pos with another query text (ApplyState refuses: the server answers from a
 	//                   new cursor under a new id, the cached one stays as it is)
 	//   nosource        a query whose FROM matches no partition: an empty page whose NextQueryRequest is still that query
@@ -54,6 +56,10 @@ type Step struct {
 	// Wake: the request is sent first (WaitTimeout 60) and waits at the end of the data; Apps (one event) are written
 	// while it waits; for the model this is the page after the append
 	Wake bool `json:"wake,omitempty"`
+	// Win: Apps (one partition) are written and flushed inside the page, in the window between the io.EOF of that
+	// partition's chunk iterator and the chunk selector's next look at the chunks (window.go); for the model they are
+	// appends before the NEXT page (theorem C03_eof_window: the position the page returns is the one before them)
+	Win bool `json:"win,omitempty"`
 }
 
 type Filter struct {
@@ -101,21 +107,28 @@ type pageObs struct {
 }
 
 type runner struct {
-	srv     *Server
-	rp      *Replay
-	byPart  map[int]*partRef // harness partition number -> reference
-	parts   []*partRef       // sorted by src (the model's store order)
-	viol    *Violation
-	coqApps [][]string // per step: Gallina appends
-	pages   []pageObs
-	st0     string
-	first   []int // per partition: index of the first record the whole read covers
-	startS  string            // the Pos string of the first request (rp.Start, or what an @-start resolved to)
-	startG  string            // the same as a Gallina pos_t
-	kindOv  map[int]string    // per step: the model's kind when it differs from the script's (after a badpos prelude)
-	pres    map[string]int    // distribution of the preludes
-	aborted bool  // a query failed: reported through the oracle, the script stops
-	hung    bool  // a query did not return: the server is left behind (its Stop could block)
+	srv                 *Server
+	rp                  *Replay
+	byPart              map[int]*partRef // harness partition number -> reference
+	parts               []*partRef       // sorted by src (the model's store order)
+	viol                *Violation
+	coqApps             [][]string // per step: Gallina appends
+	pages               []pageObs
+	st0                 string
+	first               []int          // per partition: index of the first record the whole read covers
+	startS              string         // the Pos string of the first request (rp.Start, or what an @-start resolved to)
+	startG              string         // the same as a Gallina pos_t
+	kindOv              map[int]string // per step: the model's kind when it differs from the script's (after a badpos prelude)
+	win                 *window        // the decorated ItFactory's trigger (only when the script has Win steps)
+	winApps             []string       // Gallina appends written inside the window of the last page: they belong to the next step
+	winObs              []string       // per window page: the Gallina observation for C03K.eof_ok
+	winHits             int
+	winObsAdded         bool
+	kTrunc              int            // >= 0: the model's run is compared up to (not including) this page - the page of a window whose flush rolled the chunk over (known finding: the run model has no step that loses records; the window itself is compared through eof_ok)
+	winFired, winRolled bool           // the last window step: the flush was placed; it added a chunk
+	pres                map[string]int // distribution of the preludes
+	aborted             bool           // a query failed: reported through the oracle, the script stops
+	hung                bool           // a query did not return: the server is left behind (its Stop could block)
 	// distribution
 	kinds       map[string]int
 	edgePage    bool
@@ -418,11 +431,16 @@ func (r *runner) doQuery(req *api.QueryRequest, rpc bool) (*api.QueryResult, err
 		return o.res, o.err
 	case <-time.After(30 * time.Second):
 		r.hung = true
+		atomic.AddInt32(&hangs, 1)
 		return nil, errHang
 	}
 }
 
 var errHang = fmt.Errorf("the request did not return within 30s")
+
+// hangs counts requests that did not come back (each costs its case 30 s and leaves a spinning or sleeping request in the
+// server): after a few the remaining generated cases are not started - the verdict is there, the run should end
+var hangs int32
 
 func (r *runner) doQuery0(req *api.QueryRequest, rpc bool) (*api.QueryResult, error) {
 	ctx := context.Background()
@@ -450,11 +468,15 @@ func (r *runner) doQuery0(req *api.QueryRequest, rpc bool) (*api.QueryResult, er
 // page runs one step: appends, the request built from the resume kind, the observation, the page-level oracle
 func (r *runner) page(st Step, cur, prev *api.QueryRequest) (used *api.QueryRequest, next *api.QueryRequest, err error) {
 	var apps []string
-	if !st.Wake {
+	if !st.Wake && !st.Win {
 		apps, err = r.applyAppends(st.Apps)
 		if err != nil {
 			return nil, nil, err
 		}
+	}
+	if len(r.winApps) > 0 {
+		apps = append(append([]string{}, r.winApps...), apps...)
+		r.winApps = nil
 	}
 	r.coqApps = append(r.coqApps, apps)
 	if st.Pre != "" {
@@ -510,6 +532,7 @@ func (r *runner) exec(st Step, req api.QueryRequest) (*api.QueryResult, error) {
 		lim = 10000
 	}
 	var res *api.QueryResult
+	var want []xev
 	if st.Wake {
 		var apps []string
 		res, apps, err = r.wakeQuery(&req, st)
@@ -522,10 +545,31 @@ func (r *runner) exec(st Step, req api.QueryRequest) (*api.QueryResult, error) {
 			return nil, err
 		}
 		r.coqApps[len(r.coqApps)-1] = apps
+	} else if st.Win {
+		want = r.expected(start, lim)
+		res, err = r.winQuery(&req, st)
+		if err == nil && res != nil {
+			// a flush that starts a new chunk is found by the selector and read by this very page: then the appends
+			// count as written before the page (for the oracle and for the model)
+			if seen := r.expected(start, lim); len(seen) != len(want) && sameEvents(r, res.Events, seen) {
+				want = seen
+				r.coqApps[len(r.coqApps)-1] = append(r.coqApps[len(r.coqApps)-1], r.winApps...)
+				r.winApps = nil
+				if n := len(r.winObs); n > 0 && r.winObsAdded {
+					r.winObs = r.winObs[:n-1] // (the window observation is about a flush the page does not read in full)
+					if r.kTrunc == len(r.pages) {
+						r.kTrunc = -1
+					}
+				}
+			}
+		}
 	} else {
+		want = r.expected(start, lim)
 		res, err = r.doQuery(&req, st.Rpc)
 	}
-	want := r.expected(start, lim)
+	if st.Wake {
+		want = r.expected(start, lim)
+	}
 	if err != nil {
 		// the implementation refused or failed a well-formed request: a verdict, not a harness failure
 		cls := "query-error"
@@ -582,6 +626,8 @@ func (r *runner) exec(st Step, req api.QueryRequest) (*api.QueryResult, error) {
 	}
 	switch {
 	case okContent && fieldsOk:
+	case st.Win && r.winRolled:
+		r.fail("eof-window-rollover", detail()+fmt.Sprintf("; the flush inside the EOF window grew the chunk the reader stood at the end of AND started a new chunk (chunks of %s: %v)", r.byPart[st.Apps[0].Part].tags, r.byPart[st.Apps[0].Part].layout))
 	case backOnCached && okContent && onlyFields && !r.rp.Flt.any() && len(r.parts) == 1:
 		r.fail("retry-cached-stale-fields", detail())
 	case backOnCached && (r.rp.Flt.any() || len(r.parts) > 1):
@@ -683,6 +729,31 @@ func (r *runner) prelude(st Step, cur *api.QueryRequest) error {
 				}
 				r.kindOv[step] = "REvict"
 			}
+		}
+	case "badarg":
+		req := api.QueryRequest{ReqId: cur.ReqId, Query: cur.Query, Pos: cur.Pos, Limit: 3}
+		switch arg {
+		case "limit-1":
+			req.Limit = -1
+		case "wait-1":
+			req.WaitTimeout = -1
+		case "wait61":
+			req.WaitTimeout = 61
+		default:
+			return fmt.Errorf("unknown badarg %q", arg)
+		}
+		wasCached := req.ReqId != 0 && cursor.VC03Cached(r.srv.Provider, req.ReqId)
+		res, err := r.doQuery(&req, st.Rpc)
+		if err == errHang {
+			r.fail("query-hang", fmt.Sprintf("step %d: request with %s", step+1, arg))
+			r.aborted = true
+			return nil
+		}
+		if err == nil {
+			r.fail("bad-arg-accepted", fmt.Sprintf("step %d: the request with %s was answered (%d events) instead of refused", step+1, arg, len(res.Events)))
+		}
+		if wasCached && !cursor.VC03Cached(r.srv.Provider, req.ReqId) {
+			r.fail("bad-arg-took-cursor", fmt.Sprintf("step %d: the refused request with %s removed the cached cursor %d", step+1, arg, req.ReqId))
 		}
 	case "otherquery":
 		oflt := Filter{Needle: "k"}
@@ -816,6 +887,7 @@ func (r *runner) wakeQuery(req *api.QueryRequest, st Step) (*api.QueryResult, []
 		case <-deadline:
 			r.fail("query-hang", fmt.Sprintf("page %d: the request with WaitTimeout=60 (pos %q) neither returned nor went to sleep within 30s", len(r.pages)+1, req.Pos))
 			r.aborted, r.hung = true, true
+			atomic.AddInt32(&hangs, 1)
 			return nil, nil, nil
 		}
 	}
@@ -834,6 +906,7 @@ func (r *runner) wakeQuery(req *api.QueryRequest, st Step) (*api.QueryResult, []
 	case <-time.After(30 * time.Second):
 		r.fail("query-hang", fmt.Sprintf("page %d: the waiting request (pos %q) did not return within 30s after %d events were appended and readable", len(r.pages)+1, req.Pos, len(st.Apps)))
 		r.aborted, r.hung = true, true
+		atomic.AddInt32(&hangs, 1)
 		return nil, apps, nil
 	}
 }
@@ -922,6 +995,124 @@ func (r *runner) latePartition(rpc bool) error {
 	return nil
 }
 
+// winQuery sends the request (through backend.Querier: the write inside the window goes over the harness's RPC
+// connection, which the server serves one request at a time) with st.Apps written inside the EOF window
+func (r *runner) winQuery(req *api.QueryRequest, st Step) (*api.QueryResult, error) {
+	if r.win == nil || len(st.Apps) == 0 {
+		return nil, fmt.Errorf("a window step needs the decorated ItFactory and appends")
+	}
+	pr := r.byPart[st.Apps[0].Part]
+	if pr == nil {
+		return nil, fmt.Errorf("window step: unknown partition %d", st.Apps[0].Part)
+	}
+	for _, b := range st.Apps {
+		if b.Part != st.Apps[0].Part {
+			return nil, fmt.Errorf("window step: one partition only")
+		}
+	}
+	before := append([]chunkInfo{}, pr.layout...)
+	r.winObsAdded = false
+	var apps []string
+	w := r.win
+	w.mu.Lock()
+	w.armed, w.src, w.eof, w.fired, w.err = true, pr.src, false, false, nil
+	w.action = func() error {
+		var err error
+		apps, err = r.applyAppends(st.Apps)
+		return err
+	}
+	w.mu.Unlock()
+	res, err := r.doQuery(req, false)
+	w.mu.Lock()
+	fired, werr := w.fired, w.err
+	w.armed = false
+	w.mu.Unlock()
+	if werr != nil {
+		return nil, werr
+	}
+	r.winFired, r.winRolled = fired, fired && len(pr.layout) > len(before)
+	if !fired {
+		// the page did not run into the end of that partition: the appends are written now (same meaning for the model)
+		var aerr error
+		apps, aerr = r.applyAppends(st.Apps)
+		if aerr != nil {
+			return nil, aerr
+		}
+	} else {
+		r.winHits++
+	}
+	r.winApps = apps
+	if err == nil && fired && r.winRolled && res != nil && r.kTrunc < 0 {
+		// the position right after the window, as far as it can be observed: where the first event lies that the page
+		// delivered from behind the data the reader had seen
+		nBefore := 0
+		for _, c := range before {
+			nBefore += c.Cnt
+		}
+		for _, e := range res.Events {
+			if e.Tags != pr.tags {
+				continue
+			}
+			k := -1
+			for i := range pr.evs {
+				if pr.evs[i].Ts == e.Timestamp {
+					k = i
+				}
+			}
+			if k >= nBefore {
+				off := 0
+				for _, c := range pr.layout {
+					if k < off+c.Cnt {
+						lay := func(l []chunkInfo) string {
+							var cs []string
+							for _, c := range l {
+								cs = append(cs, GTuple(GN(c.Id), GN(uint64(c.Cnt))))
+							}
+							return GList(cs)
+						}
+						r.winObs = append(r.winObs, GTuple(lay(before), lay(pr.layout), GTuple(GN(c.Id), GN(uint64(k-off)))))
+						r.kTrunc = len(r.pages)
+						r.winObsAdded = true
+						break
+					}
+					off += c.Cnt
+				}
+				break
+			}
+		}
+	}
+	if err == nil && fired && !r.winRolled && res != nil {
+		// the observation for the model's eof_step: chunks before, chunks after, the position the page returned
+		if pm, perr := parsePos(res.NextQueryRequest.Pos); perr == nil {
+			if p, ok := pm[pr.src]; ok {
+				lay := func(l []chunkInfo) string {
+					var cs []string
+					for _, c := range l {
+						cs = append(cs, GTuple(GN(c.Id), GN(uint64(c.Cnt))))
+					}
+					return GList(cs)
+				}
+				r.winObs = append(r.winObs, GTuple(lay(before), lay(pr.layout), GTuple(GN(uint64(p.CId)), GN(uint64(p.Idx)))))
+				r.winObsAdded = true
+			}
+		}
+	}
+	return res, err
+}
+
+func sameEvents(r *runner, got []*api.LogEvent, want []xev) bool {
+	if len(got) != len(want) {
+		return false
+	}
+	for i, w := range want {
+		g := got[i]
+		if g.Tags != r.parts[w.part].tags || g.Timestamp != w.e.Ts || g.Message != w.e.Msg || g.Fields != w.e.Flds {
+			return false
+		}
+	}
+	return true
+}
+
 func showGot(evs []*api.LogEvent) string {
 	var sb strings.Builder
 	for _, e := range evs {
@@ -1005,7 +1196,7 @@ func (r *runner) chainOracle() {
 	// (one request returns at most QueryMaxLimit events: the comparison needs a store that fits)
 	// (a read that starts behind the data - tail, @past - has no single-read counterpart: a later request from that
 	// position starts behind what was appended meanwhile)
-	if finished && strings.ToLower(r.rp.Start) != "tail" && r.rp.Start != "@past" && nmatch < 10000 {
+	if finished && strings.ToLower(r.rp.Start) != "tail" && r.rp.Start != "@past" && r.rp.Start != "@maxidx" && nmatch < 10000 {
 		res, err := r.doQuery(&api.QueryRequest{Query: r.rp.Flt.query(), Pos: r.startS, Limit: 10000}, true)
 		if err != nil {
 			r.fail("single-read-failed", err.Error())
@@ -1068,6 +1259,10 @@ func main() {
 			rp := rp
 			jobs = append(jobs, job{rp: &rp})
 		}
+		for _, rp := range eofWindow() {
+			rp := rp
+			jobs = append(jobs, job{rp: &rp})
+		}
 		// exhaustive small scope: every limit sequence over {1,2,3} of length L on a 7-event/3-chunk store, cached and
 		// uncached, then drained
 		L := 3
@@ -1096,6 +1291,9 @@ func main() {
 		errs := make([]error, len(jobs))
 		Parallel(len(jobs), 12, func(i int) {
 			j := jobs[i]
+			if atomic.LoadInt32(&hangs) >= 4 {
+				return // (res[i] stays nil: not started)
+			}
 			if j.rp != nil {
 				res[i], errs[i] = runCase(j.rp, nil)
 			} else {
@@ -1109,10 +1307,17 @@ func main() {
 			}
 		}
 		for i := len(bulk); i < len(jobs); i++ {
-			c.Add(*res[i])
+			if res[i] != nil {
+				c.Add(*res[i])
+			}
 		}
 		for i := 0; i < len(bulk); i++ {
-			c.Add(*res[i])
+			if res[i] != nil {
+				c.Add(*res[i])
+			}
+		}
+		if n := atomic.LoadInt32(&hangs); n >= 4 {
+			c.Note("stopped_after_hangs", n)
 		}
 		if fds, err := ioutil.ReadDir("/proc/self/fd"); err == nil {
 			c.Note("open_fds_at_end", len(fds))
@@ -1126,7 +1331,7 @@ type job struct {
 	gen *Rng
 }
 
-const rule = "range-grow: RANGE on a server-kept cursor whose lower bound lies above everything a partition holds at the first page, then in-range appends into the same chunk / new chunks, resumed in each kind; empty-first: reads whose first page is empty (Pos tail, or head with a WHERE that matches nothing stored yet), then appends, then resumed in each kind, cached and uncached, 1-2 partitions; stores of 1-4 partitions with 2-40 events in chunks of 1-6 records (pairwise different timestamps), with/without WHERE and RANGE; page scripts with limits from {1,2,3,7,chunk+-1,total+-1,10001} and resume kinds same/evict/zero/posonly (+retry in the retry stream), cached (WaitTimeout) and uncached, appends before ~30% of the pages, then drained to the end; a case is non-trivial iff it has >= 3 pages and some page ended within one record of a chunk edge, or it used a resume kind other than `same`; distinct by the hash of store+script+observations"
+const rule = "eof-window: RANGE walks with a flush placed between a chunk iterator's EOF and the selector's look at the chunk; range-grow: RANGE on a server-kept cursor whose lower bound lies above everything a partition holds at the first page, then in-range appends into the same chunk / new chunks, resumed in each kind; empty-first: reads whose first page is empty (Pos tail, or head with a WHERE that matches nothing stored yet), then appends, then resumed in each kind, cached and uncached, 1-2 partitions; stores of 1-4 partitions with 2-40 events in chunks of 1-6 records (pairwise different timestamps), with/without WHERE and RANGE; page scripts with limits from {1,2,3,7,chunk+-1,total+-1,10001} and resume kinds same/evict/zero/posonly (+retry in the retry stream), cached (WaitTimeout) and uncached, appends before ~30% of the pages, then drained to the end; a case is non-trivial iff it has >= 3 pages and some page ended within one record of a chunk edge, or it used a resume kind other than `same`; distinct by the hash of store+script+observations"
 
 func mix64(z uint64) uint64 {
 	z = (z ^ (z >> 33)) * 0xff51afd7ed558ccd
